@@ -25,6 +25,7 @@ type Case struct {
 	Bytes  []byte `json:"bytes"`
 	Text   string `json:"text"`
 	Fields bool   `json:"with_struct_field_path"`
+	Chunk  int    `json:"chunk,omitempty"`
 }
 
 type textM struct{ s string }
@@ -169,32 +170,13 @@ func longLiterals(r *evid.Run) {
 			for _, pos := range []int{0, L / 2, L - 1} {
 				for _, esc := range []string{`\n`, `\u00e9`, "\xff", `\ud83d\ude00`} {
 					lit := []byte(`"` + body[:pos] + esc + body[pos:] + `"`)
-					allow := esc == "\xff"
-					want, _ := refjson.Unquote(lit, true)
 					for _, chunk := range []int{0, 7, 64} {
 						for _, wrap := range []string{"", "[", `{"k":`} {
 							doc := append([]byte(wrap), lit...)
-							dec := jsontext.NewDecoder(&chunkReader{b: doc, n: chunk}, jsontext.AllowInvalidUTF8(allow))
-							var tok jsontext.Token
-							var err error
-							for range map[string]int{"": 1, "[": 2, `{"k":`: 3}[wrap] {
-								tok, err = dec.ReadToken()
-							}
 							n++
-							cur = Case{Kind: "literal", Bytes: doc}
-							if err != nil || tok.Kind() != '"' || tok.String() != want {
-								got := ""
-								if err == nil {
-									got = tok.String()
-								}
-								report(r, cur, fmt.Sprintf("streamed ReadToken (chunk %d) of a %d-byte literal: got %q err=%v, want %q", chunk, len(lit), trunc(got), err, trunc(want)))
-							}
-							var s string
-							if wrap == "" {
-								err = jsonv2.UnmarshalRead(&chunkReader{b: doc, n: chunk}, &s, jsontext.AllowInvalidUTF8(allow))
-								if err != nil || s != want {
-									report(r, cur, fmt.Sprintf("UnmarshalRead (chunk %d) of a %d-byte literal: got %q err=%v, want %q", chunk, len(lit), trunc(s), err, trunc(want)))
-								}
+							cur = Case{Kind: "long-literal", Bytes: doc, Chunk: chunk}
+							if m := checkLong(doc, chunk); m != "" {
+								report(r, cur, m)
 							}
 						}
 					}
@@ -203,6 +185,67 @@ func longLiterals(r *evid.Run) {
 		}
 	})
 	r.Bound("long literals: lengths 1..%d with an escape / ill-formed byte / surrogate pair at start, middle, end, read by ReadToken and UnmarshalRead through readers delivering all / 7 / 64 bytes per call, bare and inside an array / object", maxL)
+}
+
+// checkLong decodes a document whose last token is a (long) string literal through a streaming reader.
+func checkLong(doc []byte, chunk int) (msg string) {
+	defer func() {
+		if p := recover(); p != nil {
+			msg = fmt.Sprintf("library panic: %v", p)
+		}
+	}()
+	i := bytes.IndexByte(doc, '"')
+	if bytes.HasPrefix(doc, []byte("{")) {
+		i = bytes.LastIndex(doc[:len(doc)-1], []byte(`:"`)) + 1
+	}
+	lit := doc[i:]
+	allow := !refjson.WellFormed(string(lit))
+	want, _ := refjson.Unquote(lit, true)
+	dec := jsontext.NewDecoder(&chunkReader{b: doc, n: chunk}, jsontext.AllowInvalidUTF8(allow))
+	var tok jsontext.Token
+	var err error
+	for {
+		tok, err = dec.ReadToken()
+		if err != nil || int(dec.InputOffset()) >= len(doc) {
+			break
+		}
+	}
+	if err != nil || tok.Kind() != '"' || tok.String() != want {
+		got := ""
+		if err == nil {
+			got = tok.String()
+		}
+		return fmt.Sprintf("streamed ReadToken (chunk %d) of a %d-byte literal: got %q err=%v, want %q", chunk, len(lit), trunc(got), err, trunc(want))
+	}
+	if i == 0 {
+		var s string
+		err = jsonv2.UnmarshalRead(&chunkReader{b: doc, n: chunk}, &s, jsontext.AllowInvalidUTF8(allow))
+		if err != nil || s != want {
+			return fmt.Sprintf("UnmarshalRead (chunk %d) of a %d-byte literal: got %q err=%v, want %q", chunk, len(lit), trunc(s), err, trunc(want))
+		}
+		var a any
+		err = jsonv2.UnmarshalRead(&chunkReader{b: doc, n: chunk}, &a, jsontext.AllowInvalidUTF8(allow))
+		if err != nil || a != any(want) {
+			return fmt.Sprintf("UnmarshalRead into any (chunk %d) of a %d-byte literal: got %v err=%v", chunk, len(lit), a, err)
+		}
+	} else {
+		var a any
+		full := append(append([]byte(nil), doc...), map[byte]string{'[': "]", '{': "}"}[doc[0]]...)
+		err = jsonv2.UnmarshalRead(&chunkReader{b: full, n: chunk}, &a, jsontext.AllowInvalidUTF8(allow))
+		var got any
+		switch x := a.(type) {
+		case []any:
+			if len(x) == 1 {
+				got = x[0]
+			}
+		case map[string]any:
+			got = x["k"]
+		}
+		if err != nil || got != any(want) {
+			return fmt.Sprintf("UnmarshalRead into any (chunk %d) of a wrapped %d-byte literal: got %.60v err=%v", chunk, len(lit), got, err)
+		}
+	}
+	return ""
 }
 
 func trunc(s string) string {
@@ -515,13 +558,16 @@ func (c *checker) literal(lit []byte) (msg string) {
 func report(r *evid.Run, cs Case, msg string) {
 	cs.Bytes = append([]byte(nil), cs.Bytes...)
 	cs.Text = string(cs.Bytes)
-	r.Violation(fmt.Sprintf("c11|%s|%q", cs.Kind, cs.Bytes), msg, cs, func() bool { return replayCase(cs) != "" })
+	r.Violation(fmt.Sprintf("c11|%s|%d|%q", cs.Kind, cs.Chunk, cs.Bytes), msg, cs, func() bool { return replayCase(cs) != "" })
 }
 
 func replayCase(cs Case) string {
 	c := newChecker()
 	if cs.Kind == "literal" {
 		return c.literal(cs.Bytes)
+	}
+	if cs.Kind == "long-literal" {
+		return checkLong(cs.Bytes, cs.Chunk)
 	}
 	return c.goString(string(cs.Bytes), cs.Fields)
 }
